@@ -260,6 +260,11 @@ def shrink(kind: str, tree, leaves: List[dict], focus: int, sw: Optional[dict], 
 
 def report(part: str, kind: str, msg: str, detail: str, tag: str, tree, leaves: List[dict], focus: int, sw: Optional[dict], np) -> dict:
     t, ls, fo, s, feats = shrink(kind, tree, list(leaves), focus, sw, np)
+    for _ in range(4):  # to a fixed point, so that replaying the shrunk case computes the same key
+        t2, ls2, fo2, s2, feats2 = shrink(kind, t, list(ls), fo, s, np)
+        if (t2, ls2, fo2, s2, feats2) == (t, ls, fo, s, feats):
+            break
+        t, ls, fo, s, feats = t2, ls2, fo2, s2, feats2
     feats = [tag if f == "@TAG@" else f for f in feats]
     # re-run the shrunk case for an accurate message
     k2, msg2, det2 = (roundtrip_outcome(t, ls, np) if s is None else spelling_outcome(t, ls, s))
